@@ -92,12 +92,25 @@ func H_C12_asr() {
 	n := sxParam("n", 3)
 	t := genTree(n, 2, false)
 	ncodes := sxParam("codes", len(c12iupac))
+	// codemask (bit i = code i of the table) selects the codes used at the tips
+	var codes []int
+	if m := sxParam("codemask", 0); m != 0 {
+		for i := range c12iupac {
+			if m&(1<<uint(i)) != 0 {
+				codes = append(codes, i)
+			}
+		}
+	} else {
+		for i := 0; i < ncodes; i++ {
+			codes = append(codes, i)
+		}
+	}
 	algos := []int{asr.ALGO_DOWNPASS, asr.ALGO_DELTRAN, asr.ALGO_ACCTRAN}
 	algo := algos[sxChoose("algo", len(algos))]
 	a := align.NewAlign(align.NUCLEOTIDS)
 	tipSet := map[*tree.Node][]int{}
 	for _, tp := range t.Tips() {
-		c := c12iupac[sxChoose("code_"+tp.Name(), ncodes)]
+		c := c12iupac[codes[sxChoose("code_"+tp.Name(), len(codes))]]
 		// two sites: the chosen code, and a constant column
 		sxAssert(a.AddSequence(tp.Name(), string([]byte{c.c, 'A'}), "") == nil, "AddSequence")
 		tipSet[tp] = c.set
